@@ -30,6 +30,17 @@ def eval_texts(ctx, cs, n_sent, n_mut, n_soup, n_bytes, objs_per=1):
     for t in FIXED_TEXTS:
         for o in SMALL_OBJS[:3]:
             cs.eval(t, o, 'text-fixed')
+    # a sentence with something at its very ends: white space (ignored) or anything else (an error)
+    EDGE = ['\x00', '\x07', '\x1b', '\x7f', '\u200b', '\ufeff', '\u00ad', '\ue000', '\u2060', '\U000e0001', '\u200e', '\u061c',
+            '\t', '\r', '\n', '\x0b', '\x0c', ' ', '\u0085', '\u00a0', '\u1680', '\u2003', '\u2028', '\u2029', '\u202f', '\u205f', '\u3000',
+            '\u180e', '\u200a', '\u2007', ';', '#', '$', '~', '\\', '"', "'", '`', b'\xff', b'\xc2', b'\xe2\x80', b'\xef\xbb\xbf']
+    base = ['x eq 1', 'x pr', '(x eq 1)', 'x eq "a"', 'x in [1]']
+    for b in base:
+        for e in EDGE:
+            eb = e if isinstance(e, bytes) else e.encode('utf-8')
+            bb = b.encode()
+            for t in (bb + eb, eb + bb, eb + bb + eb, bb + b' ' + eb, eb + b' ' + bb, bb + eb + eb):
+                cs.eval(t, obj({'x': I(1)}), 'text-edge')
 
 def check_C14(ctx):
     cs = CaseSet()
@@ -643,8 +654,32 @@ def check_C02(ctx):
                             text = cb % {'L': lf, 'P': P}
                             c = cs.eval(text, o, 'leak')
                             groups.append((c, text, cb, cs.eval(lf, o, 'leak-alone'), cs.eval(P, o, 'leak-alone')))
-    # random compounds: each leaf alone vs in place (needs the Boolean reading; error-free leaves)
+    # three comparisons over nested paths with shared prefixes / shared last keys at different depths
+    # (a cache of resolved parents or of path texts would show here): all triples x connectives x objects
     rnd = []
+    NP = [['a', 'b', 'x'], ['a', 'b', 'y'], ['c', 'd', 'x'], ['c', 'd', 'y'], ['c', 'd', 'e', 'x'], ['a', 'x'], ['c', 'x'], ['x'], ['c', 'b', 'x']]
+    NOBJ = [obj({'a': {'b': {'x': I(1), 'y': I(2)}, 'x': I(3)}, 'x': I(4)}),
+            obj({'a': {'b': {'x': I(1)}}, 'c': ('nil',)}),
+            obj({'a': {'b': {'x': I(1)}}, 'c': {'d': ('nil',)}}),
+            obj({'c': {'d': {'x': I(1), 'e': {'x': I(5)}}, 'x': I(2), 'b': {'x': I(7)}}, 'a': {'x': I(1)}}),
+            obj({'a': {'b': ('nil',), 'x': I(1)}, 'c': {'d': {'y': I(1)}}, 'x': I(1)}),
+            obj({})]
+    nleaf = lambda p, v: ('cmp', p, ctx.rng.choice(['EQ', 'EQ', 'NE']), ctx.rng.choice([('long', str(v)), ('null',)])) if ctx.rng.random() < 0.8 else ('pr', p)
+    triples = [(p1, p2, p3) for p1 in NP for p2 in NP for p3 in NP]
+    if ctx.quick:
+        triples = ctx.rng.sample(triples, 600)
+    for (p1, p2, p3) in triples:
+        for o in NOBJ:
+            l1, l2, l3 = nleaf(p1, 1), nleaf(p2, ctx.rng.choice([1, 2])), nleaf(p3, 1)
+            op1, op2 = ctx.rng.choice(['and', 'or']), ctx.rng.choice(['and', 'or'])
+            q = ('logic', op2, ('logic', op1, l1, l2), l3)
+            if ctx.rng.random() < 0.3:
+                q = ('logic', op2, ('logic', op1, ('paren', True, l1), l2), l3)
+            q = normalize(q)
+            c = cs.eval(render(q), o, 'nested-triples', q=q)
+            alone = {id(l): cs.eval(render(l), o, 'nested-leaf') for l in leaves(q)}
+            rnd.append((c, q, alone))
+    # random compounds: each leaf alone vs in place (needs the Boolean reading; error-free leaves)
     for _ in range(ctx.n(500, 15000)):
         k = ctx.rng.randint(2, 8)
         q, info = random_query(ctx.rng, k, lambda: typed_leaf(ctx.rng, allow_fail=False))
@@ -901,7 +936,7 @@ def rand_history(ctx, info, n):
             if ctx.rng.random() < 0.1 and info:
                 leaf = ctx.rng.choice(info)[0]
                 o = ('m', o[1] + [(leaf[1][0].encode(), ctx.rng.choice(HOSTILE))])
-            ops.append(('p', o))
+            ops.append(('q' if ctx.rng.random() < 0.3 else 'p', o))
         elif r < 0.85:
             ops.append(('r',))
         else:
@@ -918,17 +953,17 @@ def check_C11(ctx):
             text, info = ctx.rng.choice(FIXED_TEXTS), []
         ops = rand_history(ctx, info, ctx.rng.randint(1, ctx.n(12, 120)))
         h = cs.hist(text, ops, 'hist')
-        fresh = [cs.eval(text, o[1], 'hist-fresh') if o[0] == 'p' else None for o in ops]
+        fresh = [cs.eval(text, o[1], 'hist-fresh') if o[0] in ('p', 'q') else None for o in ops]
         hs.append((h, ops, fresh))
     # targeted: every ordered pair / selected triples of calls from a per-rule object pool,
     # for rules mixing list literals (incl. out-of-range elements), nested paths and every
     # literal kind; the pools contain calls that err, calls that panic and clean calls
-    T_RULES = ['x in [1, 2] or y in [3, 99999999999999999999]', 'x in ["u", "v"] or y in [3, 99999999999999999999]',
+    T_RULES = ['x eq 1', 'a eq 1', 'x in [1, 2] or y in [3, 99999999999999999999]', 'x in ["u", "v"] or y in [3, 99999999999999999999]',
                'a eq 1 or b.c eq 2', 'a eq 1 and b.c eq 2', 'a eq "s" or b.c pr', 'x in [1.5, 1.0e999] or y in [2.5]',
                'a gt null or a eq 1', 'not (a co 1) and b eq 2', 'a eq 1.0.0 or b in ["p","q"]', 'a.b.c eq 1 or a.b eq 2 or a eq 3',
                'k eq 99999999999999999999 or x in [1]', 'x in [1] and k eq 99999999999999999999', 's sw "a" or t in ["a"] or u in [1]',
                'x eq 01', 'x eq 1 AND y eq 2']
-    T_OBJS = [obj({}), obj({'x': I(9)}), obj({'x': I(3), 'y': I(3)}), obj({'x': S('u')}), obj({'a': I(1)}), obj({'b': I(5)}),
+    T_OBJS = [obj({}), obj({'x': I(9)}), obj({'x': I(1)}), obj({'x': I(2)}), obj({'a': S('s')}), obj({'a': I(2)}), obj({'x': I(3), 'y': I(3)}), obj({'x': S('u')}), obj({'a': I(1)}), obj({'b': I(5)}),
               obj({'b': {'c': I(2)}}), obj({'a': ('strpanic',), 'b': S('p')}), obj({'a': {'b': {'c': I(1)}}}), obj({'a': {'b': I(2)}}),
               obj({'y': I(3), 'x': F(1.5)}), obj({'s': ('strpanic',), 't': S('a'), 'u': I(1)}), obj({'a': S('1.0.0'), 'b': S('Q')}),
               obj({'k': I(1), 'x': I(1)}), obj({'a': I(3), 'b': I(2)})]
@@ -936,14 +971,14 @@ def check_C11(ctx):
         for o1 in T_OBJS:
             for o2 in T_OBJS:
                 for mid in ((), (('r',),), (('d',),)) if ctx.rng.random() < ctx.n(0.25, 1.0) else ((),):
-                    ops = [('p', o1)] + list(mid) + [('p', o2), ('d',)]
+                    ops = [('p', o1)] + list(mid) + [(ctx.rng.choice(['p', 'q']), o2), ('d',)]
                     h = cs.hist(text, ops, 'hist-pairs')
-                    fresh = [cs.eval(text, o[1], 'hist-fresh') if o[0] == 'p' else None for o in ops]
+                    fresh = [cs.eval(text, o[1], 'hist-fresh') if o[0] in ('p', 'q') else None for o in ops]
                     hs.append((h, ops, fresh))
         for _ in range(ctx.n(20, 300)):
-            ops = [('p', ctx.rng.choice(T_OBJS)) if ctx.rng.random() < 0.8 else (ctx.rng.choice(['r', 'd']),) for _ in range(ctx.rng.randint(3, 8))]
+            ops = [(ctx.rng.choice(['p', 'q']), ctx.rng.choice(T_OBJS)) if ctx.rng.random() < 0.8 else (ctx.rng.choice(['r', 'd']),) for _ in range(ctx.rng.randint(3, 8))]
             h = cs.hist(text, ops, 'hist-targeted')
-            fresh = [cs.eval(text, o[1], 'hist-fresh') if o[0] == 'p' else None for o in ops]
+            fresh = [cs.eval(text, o[1], 'hist-fresh') if o[0] in ('p', 'q') else None for o in ops]
             hs.append((h, ops, fresh))
     res = ctx.run(cs)
     ctx.compare([c for c in cs.cases if c.kind == 'hist'], res, ['out'], nontrivial=lambda c, mo: True)
@@ -954,7 +989,7 @@ def check_C11(ctx):
         outs = io['out'].split(';')
         last = None
         for k, (op, o, f) in enumerate(zip(ops, outs, fresh)):
-            if op[0] == 'p':
+            if op[0] in ('p', 'q'):
                 fo = res.impl.get(f.id)
                 if not fo:
                     continue
